@@ -32,6 +32,10 @@ def make_models(prog=None):
         ex.world.decomp_calls = getattr(ex.world, 'decomp_calls', 0) + 1
         return Ok(VecM([sym_int(ex.fresh('dec'), 'u8') for _ in range(k)]))
 
+    @M.rx(r'(^|::)full_name_for$', 'SerializerState::full_name_for (stub: text that only reaches error messages)')
+    def _full_name(ex, m, args, callee, dest):
+        return StrV(None, z3.Int(ex.fresh('fullname')))
+
     @M.rx(r'^(lz4::block::compress|zstd::bulk::compress)$', 'lz4/zstd compress (contract: Err, or Ok(some bytes))')
     def _compress(ex, m, args, callee, dest):
         k = ex.nondet(3, 'compressor outcome')
@@ -130,7 +134,7 @@ class BinHarness:
         cm = MapM([], kind='HashMap')
         for cn, c in (classes or {}).items():
             props = MapM([[StrV.lit(pn), Cell(self.prop_descriptor(pn, **pd) if isinstance(pd, dict) else pd)] for pn, pd in c.get('properties', {}).items()], kind='HashMap')
-            defaults = MapM([[StrV.lit(pn), Cell(v)] for pn, v in c.get('defaults', {}).items()], kind='HashMap')
+            defaults = MapM([[StrV.lit(pn), Cell(self.const_value(*v) if isinstance(v, (tuple, list)) else v)] for pn, v in c.get('defaults', {}).items()], kind='HashMap')
             sup = Some(StrV.lit(c['superclass'])) if c.get('superclass') else NoneV()
             cd = self.S('ClassDescriptor', name=StrV.lit(cn), tags=SetM([]), superclass=sup, properties=props, default_properties=defaults)
             cm.entries.append([StrV.lit(cn), Cell(cd)])
@@ -143,9 +147,21 @@ class BinHarness:
             k = Enum('PropertyKind', 'Alias', [StrV.lit(kind[1])])
         else:
             ser = kind[1]
-            sv = Enum('PropertySerialization', ser[0], [StrV.lit(ser[1])]) if isinstance(ser, tuple) else Enum('PropertySerialization', ser)
+            if isinstance(ser, (tuple, list)) and ser[0] == 'Migrate':
+                pm = self.S('PropertyMigration', new_property_name=StrV.lit(ser[1]), migration=Enum('MigrationOperation', ser[2]))
+                sv = Enum('PropertySerialization', 'Migrate', [pm])
+            else:
+                sv = Enum('PropertySerialization', ser[0], [StrV.lit(ser[1])]) if isinstance(ser, (tuple, list)) else Enum('PropertySerialization', ser)
             k = Enum('PropertyKind', 'Canonical', [sv])
         return self.S('PropertyDescriptor', name=StrV.lit(name), scriptability=Enum('Scriptability', 'None'), data_type=dt, tags=SetM([]), kind=k)
+
+    def const_value(self, kind, nums):
+        """a concrete Variant of `kind` from a dict field -> number (bit patterns), through the same builder as symbolic values"""
+        v = {}
+        for fld, w in FIELDS[kind]:
+            x = nums[fld]
+            v[fld] = z3.BoolVal(bool(x)) if w == 'bool' else z3.BitVecVal(x, w)
+        return build_value(self, expected_variant(self, kind, v, {}, 0))
 
     def deserializer(self, db):
         return self.S('Deserializer', database=Ptr(Cell(db)))
@@ -234,6 +250,8 @@ def run_case(H, ex, case):
         return tree_case(H, ex, case)
     if what == 'prop':
         return prop_case(H, ex, case)
+    if what == 'migr':
+        return migr_case(H, ex, case)
     if what == 'dump':
         # ChunkBuilder::dump(CompressionType::None) into a sink with room for k bytes
         n, k = case['len'], case['room']
@@ -465,13 +483,13 @@ def model_view(H, m, v):
                 out.append(r)
         return out
     if isinstance(v, Enum):
-        if v.name == 'Variant':
+        if v.ename == 'Variant':
             return {v.variant: model_view(H, m, v.f[0])}
-        if v.name == 'BrickColor':
+        if v.ename == 'BrickColor':
             return H.prog.enums['BrickColor'][v.variant]
-        if v.name == 'PhysicalProperties':
+        if v.ename == 'PhysicalProperties':
             return None if v.variant == 'Default' else model_view(H, m, v.f[0])
-        if v.name == 'Option':
+        if v.ename == 'Option':
             return None if v.variant == 'None' else model_view(H, m, v.f[0])
     raise Unsupported('view of %r' % (v,))
 
@@ -479,7 +497,10 @@ def model_view(H, m, v):
 def db_json(classes):
     out = {}
     for cn, c in (classes or {}).items():
-        out[cn] = dict(superclass=c.get('superclass'), properties={pn: {k: (list(x) if isinstance(x, tuple) else x) for k, x in pd.items()} for pn, pd in c.get('properties', {}).items()})
+        def js(x):
+            return [js(y) for y in x] if isinstance(x, (tuple, list)) else x
+        out[cn] = dict(superclass=c.get('superclass'), properties={pn: {k: js(x) for k, x in pd.items()} for pn, pd in c.get('properties', {}).items()},
+                       defaults={pn: [v[0], v[1]] for pn, v in c.get('defaults', {}).items() if isinstance(v, (tuple, list))})
     return out
 
 
@@ -493,7 +514,7 @@ def confirm_decoded(H, ex, case, label):
     dbj = json.dumps(db_json(case.get('classes') if isinstance(case.get('classes'), dict) else None))
     rc, out, _ = C.run([gen.tool('replayer'), 'bytes', 'binary-decode-db', data.hex(), dbj], timeout=60)
     os.makedirs(C.REPLAYS, exist_ok=True)
-    path = os.path.join(C.REPLAYS, 'C04_%s.json' % hashlib.sha256(data + dbj.encode()).hexdigest()[:10])
+    path = os.path.join(C.REPLAYS, '%s_%s.json' % (label.split('.')[0], hashlib.sha256(data + dbj.encode()).hexdigest()[:10]))
     ok, detail = False, 'native: ' + out.strip()[-200:]
     try:
         res = json.loads(out.strip().split('\n')[-1]) if 'PANIC' not in out else None
@@ -511,6 +532,9 @@ def confirm_decoded(H, ex, case, label):
         for i, v in enumerate(E['values']):
             if isinstance(v, tuple) and v[0] == 'ref':
                 want.append({'Ref': (v[1] + 1) if 0 <= v[1] < E['n'] else None})
+            elif isinstance(v, tuple) and v[0] == 'content':
+                ty, x = v[1]
+                want.append({'Content': None if ty == 0 else ({'Uri': [m.eval(x.t, model_completion=True).as_long()]} if ty == 1 else {'Object': (x + 1) if 0 <= x < E['n'] else None})})
             else:
                 want.append(model_view(H, m, v))
         got = [dict(map(tuple, x['props'])).get(E['name'].decode()) for x in insts]
@@ -521,7 +545,7 @@ def confirm_decoded(H, ex, case, label):
         ok = got != ex.c04_tree
         want = ex.c04_tree
         detail = 'native: decoded forest %s, the file describes %s' % (got, want)
-    json.dump(dict(property='C04', label=label, file_hex=data.hex(), database=json.loads(dbj), expected=want, native=out[-600:], confirmed=ok,
+    json.dump(dict(property=label.split('.')[0], label=label, file_hex=data.hex(), database=json.loads(dbj), expected=want, native=out[-600:], confirmed=ok,
                    how='tools/replayer bytes binary-decode-db <file_hex> <database json>'), open(path, 'w'), indent=1)
     return ok, path, detail
 
@@ -532,7 +556,7 @@ def confirm(H, ex, case, label):
     from .. import common as C, gen
     if ex.solver.check() != z3.sat:
         return False, None, 'path condition unsatisfiable at report time'
-    if label.startswith('C04') and case['what'] in ('prop', 'tree'):
+    if (label.startswith('C04') and case['what'] in ('prop', 'tree')) or case['what'] == 'migr':
         return confirm_decoded(H, ex, case, label)
     if case['what'] == 'dump':
         # the sink obligation is replayed through the public writer: a one-Folder DOM into a sink with room for r bytes, every r
@@ -608,9 +632,10 @@ PROP_TYPES = {
     # name: (type id, list of (field, kind)) -- one symbolic value per instance is a dict field -> z3 term
     'Bool': 0x02, 'Int32': 0x03, 'Float32': 0x04, 'Float64': 0x05, 'UDim': 0x06, 'UDim2': 0x07, 'Ray': 0x08, 'Faces': 0x09, 'Axes': 0x0a,
     'BrickColor': 0x0b, 'Color3': 0x0c, 'Vector2': 0x0d, 'Vector3': 0x0e, 'Enum': 0x12, 'Ref': 0x13, 'Vector3int16': 0x14, 'NumberRange': 0x17,
-    'Rect': 0x18, 'PhysicalProperties': 0x19, 'Color3uint8': 0x1a, 'Int64': 0x1b, 'String': 0x01, 'NumberSequence': 0x15, 'ColorSequence': 0x16, 'CFrame': 0x10,
+    'Content': 0x22, 'Rect': 0x18, 'PhysicalProperties': 0x19, 'Color3uint8': 0x1a, 'Int64': 0x1b, 'String': 0x01, 'NumberSequence': 0x15, 'ColorSequence': 0x16, 'CFrame': 0x10,
 }
 FIELDS = {
+    'Content': [],
     'Bool': [('v', 'bool')], 'Int32': [('v', 32)], 'Float32': [('v', 32)], 'Float64': [('v', 64)], 'UDim': [('scale', 32), ('offset', 32)],
     'UDim2': [('xs', 32), ('xo', 32), ('ys', 32), ('yo', 32)], 'Ray': [('ox', 32), ('oy', 32), ('oz', 32), ('dx', 32), ('dy', 32), ('dz', 32)],
     'Faces': [('v', 8)], 'Axes': [('v', 8)], 'BrickColor': [('v', 32)], 'Color3': [('r', 32), ('g', 32), ('b', 32)], 'Vector2': [('x', 32), ('y', 32)],
@@ -826,6 +851,19 @@ def prop_case(H, ex, case):
             else:
                 ex.assume(v['v'] == t)
             ref_targets.append(t)
+    content = None
+    if kind == 'Content':
+        # per instance: source type 0 (none), 1 (uri of one symbolic ASCII byte), 2 (object: instance t or null)
+        content = []
+        for i, ty in enumerate(opts['types']):
+            if ty == 1:
+                b = sym_int('uri%d' % i, 'u8')
+                ex.assume(z3.And(b.t >= 0x20, b.t < 0x7f))
+                content.append((1, b))
+            elif ty == 2:
+                content.append((2, ex.nondet(n + 1, 'Content object target') - 1))
+            else:
+                content.append((0, None))
     if kind == 'CFrame':
         fn = H.prog.resolve('Matrix3::from_basic_rotation_id')
         opts['rot_matrix'] = []
@@ -836,7 +874,16 @@ def prop_case(H, ex, case):
             else:
                 opts['rot_matrix'].append(None)
     refs = [z3.BitVecVal(i, 32) for i in range(n)]
-    body = B(u32le(0)) + spec_string(b'P') + B([PROP_TYPES[kind]]) + spec_prop_values(kind, vals, opts)
+    if content is not None:
+        uris = [c[1] for c in content if c[0] == 1]
+        objs = [z3.BitVecVal(c[1] & 0xffffffff, 32) for c in content if c[0] == 2]
+        values = i32col([z3.BitVecVal(c[0], 32) for c in content]) + B(u32le(len(uris)))
+        for u in uris:
+            values += B(u32le(1)) + [u]
+        values += B(u32le(len(objs))) + referent_array(objs) + B(u32le(0))
+    else:
+        values = spec_prop_values(kind, vals, opts)
+    body = B(u32le(0)) + spec_string(b'P') + B([PROP_TYPES[kind]]) + values
     props = [chunk(b'PROP', body)]
     if case.get('extra'):
         # docs/binary.md PROP: a chunk that ends after the name, or whose type id is not one the reader knows, is skipped
@@ -858,7 +905,7 @@ def prop_case(H, ex, case):
         raise Violation('C04.panic[prop_%s:%s]: deserialize panics on a spec-conformant %s column: %s at %s' % (kind, str(getattr(p, 'where', '?')).replace(' ', '_'), kind, p.msg, p.site))
     want_name = case.get('canonical_name', b'P')
     # what the file says, kept for the native confirmation of any violation below
-    ex.c04_expect = dict(name=want_name, n=n, values=[('ref', ref_targets[i]) if ref_targets is not None else
+    ex.c04_expect = dict(name=want_name, n=n, values=[('content', content[i]) if content is not None else ('ref', ref_targets[i]) if ref_targets is not None else
                                                       build_value(H, case['expect'](H, kind, vals[i], opts, i) if 'expect' in case else expected_variant(H, kind, vals[i], opts, i))
                                                       for i in range(n)])
     if res.variant != 'Ok':
@@ -877,6 +924,24 @@ def prop_case(H, ex, case):
         if len(props) != 1:
             raise Violation('C04.prop[prop_%s]: instance %d has extra properties %s' % (kind, i, sorted(props)))
         got = props[want_name]
+        if content is not None:
+            ty, x = content[i]
+            if got.variant != 'Content':
+                raise Violation('C04.prop[prop_Content]: instance %d decodes as Variant::%s, expected Variant::Content' % (i, got.variant))
+            cv = got.f[0].f[0]
+            ex.force(cv)
+            want_v = {0: 'None', 1: 'Uri', 2: 'Object'}[ty]
+            if cv.variant != want_v:
+                raise Violation('C04.prop[prop_Content]: Content of instance %d is %s, the file says %s' % (i, cv.variant, want_v))
+            if ty == 1:
+                d_ = deref(cv.f[0]).data
+                if len(d_) != 1 or ex.sat(d_[0].t != x.t):
+                    raise Violation('C04.prop[prop_Content]: URI of instance %d differs from the one stored for it (URIs are listed in instance order)' % i)
+            if ty == 2:
+                want = kids[x] if 0 <= x < n else 'none'
+                if A.canon(cv.f[0]) != want:
+                    raise Violation('C04.prop[prop_Content]: object Content of instance %d points at %s, the file says %s (object referents are listed in instance order)' % (i, A.canon(cv.f[0]), 'instance %d' % x if want != 'none' else 'null'))
+            continue
         if ref_targets is not None:
             if got.variant != 'Ref':
                 raise Violation('C04.prop[prop_Ref]: instance %d decodes as Variant::%s, expected Variant::Ref' % (i, got.variant))
@@ -889,5 +954,52 @@ def prop_case(H, ex, case):
         if got.variant != exp.variant:
             raise Violation('C04.prop[prop_%s]: instance %d decodes as Variant::%s, expected Variant::%s' % (kind, i, got.variant, exp.variant))
         if ex.sat(z3.Not(attrcheck.bits_eq(got, exp))):
+            ex.assume(z3.Not(attrcheck.bits_eq(got, exp)))          # the model replayed natively is a witness
             raise Violation('C04.prop[prop_%s]: value of instance %d differs from the value the spec encoder wrote' % (kind, i))
+    return 'ok'
+
+
+def migr_case(H, ex, case):
+    """C15 (binary read path): a spec file for n instances of the known class K carrying the migrating legacy Bool column
+    IgnoreGuiInset and, optionally, the explicit new Enum column ScreenInsets, in either chunk order.  The decoded instances
+    must carry only ScreenInsets: the explicit value when given, else the migrated legacy value (true -> 1, false -> 2)."""
+    from . import attrcheck
+    from .domcheck import DomHarness, Atoms
+    n, explicit = case['n'], case['explicit']
+    legacy = [z3.Bool('leg%d' % i) for i in range(n)]
+    new = [z3.BitVec('new%d' % i, 32) for i in range(n)]
+    refs = [z3.BitVecVal(i, 32) for i in range(n)]
+    c_leg = chunk(b'PROP', B(u32le(0)) + spec_string(b'IgnoreGuiInset') + B([PROP_TYPES['Bool']]) + spec_prop_values('Bool', [{'v': b} for b in legacy]))
+    c_new = chunk(b'PROP', B(u32le(0)) + spec_string(b'ScreenInsets') + B([PROP_TYPES['Enum']]) + spec_prop_values('Enum', [{'v': x} for x in new]))
+    order = [c_leg]
+    if explicit:
+        order = [c_leg, c_new] if ex.nondet(2, 'legacy column before / after the explicit one') == 0 else [c_new, c_leg]
+    data = file_header(1, n) + inst_chunk(z3.BitVecVal(0, 32), b'K', refs) + [b for c_ in order for b in c_] + prnt_chunk(refs, [z3.BitVecVal(0xffffffff, 32)] * n) + END
+    ex.input_bytes = data
+    ex.alloc_limit = len(data) + 1
+    de = H.deserializer(H.database(case['classes']))
+    try:
+        res = ex.force(ex.call_fn(H.F_DESER, [Ptr(Cell(de)), Ptr(Cell(iomodels.CursorV(data)))]))
+    except PanicPath as p:
+        raise Violation('C15.panic[migr_read:%s]: deserialize panics on a file with a migrating legacy column: %s at %s' % (str(getattr(p, 'where', '?')).replace(' ', '_'), p.msg, p.site))
+    want_vals = [new[i] if explicit else z3.If(legacy[i], z3.BitVecVal(1, 32), z3.BitVecVal(2, 32)) for i in range(n)]
+    ex.c04_expect = dict(name=b'ScreenInsets', n=n, values=[build_value(H, expected_variant(H, 'Enum', {'v': w}, {}, i)) for i, w in enumerate(want_vals)])
+    if res.variant != 'Ok':
+        raise Violation('C15.reject[migr_read]: a file with a migrating legacy column is rejected')
+    DH = DomHarness(H.prog)
+    A = Atoms(ex)
+    d = DH.snapshot(ex, A, res.f[0])
+    kids = d.nodes[d.root]['children']
+    if len(kids) != n:
+        raise Violation('C15.tree: %d instances decoded, %d described' % (len(kids), n))
+    for i, k in enumerate(kids):
+        props = {pk.concrete_bytes(): pv for pk, pv in d.nodes[k]['props']}
+        if set(props) != {b'ScreenInsets'}:
+            raise Violation('C15.migr[names]: instance %d decodes with properties %s; only the new name ScreenInsets may appear' % (i, sorted(props)))
+        got, exp = props[b'ScreenInsets'], ex.c04_expect['values'][i]
+        if got.variant != exp.variant:
+            raise Violation('C15.migr[type]: ScreenInsets of instance %d is Variant::%s' % (i, got.variant))
+        if ex.sat(z3.Not(attrcheck.bits_eq(got, exp))):
+            ex.assume(z3.Not(attrcheck.bits_eq(got, exp)))
+            raise Violation('C15.migr[%s]: ScreenInsets of instance %d is not %s' % ('explicit_wins' if explicit else 'value', i, 'the explicit value' if explicit else 'the migrated legacy value'))
     return 'ok'
